@@ -120,7 +120,7 @@ def prefix_ok(a, b):
 
 
 def replay_lines(ci):
-    return [l for l in ci if l[:2] in ("G ", "D ", "A ", "S ", "E ", "O ") or l.startswith("DL ")]
+    return [l for l in ci if l[:2] in ("G ", "D ", "A ", "S ", "E ", "O ") or l.startswith("DL ") or l.startswith("DM ")]
 
 
 def graph_features(g):
@@ -152,7 +152,8 @@ class Tot:
         self.n = {"net_cases": 0, "net_ok": 0, "sim_cases": 0, "sim_ticks": 0, "hdl_cases": 0, "hdl_clocks": 0, "hdl_ok": 0,
                   "stream_compared": 0, "stream_live": 0, "stream_values": 0, "excluded_by_PortReuseSafe": 0, "no_traffic": 0,
                   "env_checked": 0, "model_stream_checked": 0, "noise_cases": 0, "ref_checked": 0,
-                  "commented_verilog_cases": 0, "onlydestregs_cases": 0, "dly_cases": 0, "delayed_runs": 0, "delayed_live": 0, "delayed_live_fanout": 0}
+                  "commented_verilog_cases": 0, "onlydestregs_cases": 0, "domain_map_nonidentity_cases": 0, "shared_domain_cases": 0,
+                  "unused_domain_cases": 0, "dly_cases": 0, "delayed_runs": 0, "delayed_live": 0, "delayed_live_fanout": 0}
         self.dist = {"procs": {}, "rsize": {}, "maxfan": {}, "inputs": {}, "outputs": {}, "mixed_consumers": 0, "unlinked_sinks": 0,
                      "unconsumed_drivers": 0, "bonds": 0}
         self.distinct = set()
@@ -165,6 +166,15 @@ class Tot:
             self.n["commented_verilog_cases"] += 1
         if "onlydestregs=1" in o:
             self.n["onlydestregs_cases"] += 1
+        aps = [l.split() for l in ci if l.startswith("D ap ") and len(l.split()) >= 4]
+        doms = [x[3] for x in aps]
+        if any(x[2] != x[3] for x in aps):
+            self.n["domain_map_nonidentity_cases"] += 1
+        if len(set(doms)) < len(doms):
+            self.n["shared_domain_cases"] += 1
+        dm = tagged(ci, "DM")
+        if dm and dm.isdigit() and int(dm) > len(set(doms)):
+            self.n["unused_domain_cases"] += 1
 
     def feat(self, g):
         ft = graph_features(g)
@@ -443,7 +453,8 @@ def run(rep):
     rep.coverage.update({
         "evaluations": n["net_cases"] + n["sim_ticks"] + n["hdl_clocks"],
         "distinct_nontrivial": len(tot.distinct),
-        "rule": "seeded random bond graphs built with the real API in random call order (1..4 processors with 0..3 inputs/outputs each, 0..3 external "
+        "rule": "seeded random bond graphs built with the real API in random call order (1..4 processors — instances of domains listed in any "
+                "order, a domain possibly instantiated several times or not at all — with 0..3 inputs/outputs each, 0..3 external "
                 "inputs/outputs, fan-out up to 3, external and internal consumers of one output, unconnected ports, occasional cycles) x blocking-IO "
                 "pipeline programs (rset prologue; loop: i2rw of connected inputs, inc/dec/clr/add/cpy/mult/nop, r2owa of connected outputs, j) x "
                 "value streams and stall patterns per external port; evaluations = netlists compared + simulator ticks compared + hardware clocks compared; "
